@@ -39,8 +39,8 @@ ASSUMPTIONS = [
   'engine part: every generated bundle is well-formed apart from the name, so a rejected bundle means no id '
   'could be chosen for the requested name and is reported (C21:engine:rejected-<Exc>)',
 ]
-BUDGET = {'quick': dict(examples=8000, shards=8, max_seconds=60),
-          'thorough': dict(examples=240000, shards=16, max_seconds=600)}
+BUDGET = {'quick': dict(examples=5000, shards=8, max_seconds=60),
+          'thorough': dict(examples=160000, shards=16, max_seconds=600)}
 
 IDENT_RE = re.compile(r'\A[A-Za-z][A-Za-z0-9_]*\Z')     # ($ would accept a trailing newline)
 AVOID_RE = re.compile(r'\A[A-Za-z_][A-Za-z0-9_]*\Z')
